@@ -38,7 +38,7 @@ Qed.
 (* ---------------------------------------------------------------- accessors *)
 Lemma wfM_class M c : wfM M = true -> In c M ->
   str_nodup (field_names (c_fields c)) = true /\ forallb (field_in_grammar M) (c_fields c) = true
-  /\ forallb (is_mapped M) (c_bases c) = true /\ terminates (List.length M) M c = true.
+  /\ terminates (List.length M) M c = true.
 Proof.
   intros W Hc. unfold wfM in W. apply andb_true_iff in W. destruct W as [_ W].
   rewrite forallb_forall in W. specialize (W c Hc). unfold wf_class in W.
@@ -394,6 +394,23 @@ Lemma refuted_casefold : exists M order, wfM M = true /\ topo M order /\ wf_tabl
 Proof. refute M_casefold. Qed.
 Lemma refuted_assocname : exists M order, wfM M = true /\ topo M order /\ wf_table_names_unique (gen M order) = false.
 Proof. refute M_assocname. Qed.
+
+(* C06-i: a class whose direct base is an unmapped intermediate class.  ORMatic orders the tables by direct-base edges
+   only, so an order that respects those edges may still emit the derived DAO before its parent DAO *)
+Definition M_unmapped : cmodel :=
+  [kls "Animal" [] [fld "n" SPlain (EB BInt)]; kls "Dog" ["MixDog"; "Animal"] [fld "g" SPlain (EB BBool)]].
+Lemma refuted_unmappedorder : exists M order, wfM M = true /\ inF M = true /\ (forall c, In c order <-> In c M)
+  /\ NoDup (map c_name order) /\ direct_parents_first M [] order = true
+  /\ wf_bases_first [] (s_tables (gen M order)) = false.
+Proof.
+  exists M_unmapped, (rev M_unmapped). split; [vm_compute; reflexivity|]. split; [vm_compute; reflexivity|].
+  split; [intros c; rewrite <- in_rev; tauto|]. split; [apply str_nodup_NoDup; vm_compute; reflexivity|].
+  split; vm_compute; reflexivity.
+Qed.
+(* with a parents-first order the same model is fine: the parent is found past the unmapped class and the root is polymorphic *)
+Lemma unmapped_ok : topo M_unmapped M_unmapped /\ parent_of M_unmapped (kls "Dog" ["MixDog"; "Animal"] [fld "g" SPlain (EB BBool)]) <> None
+  /\ schema_wf (gen M_unmapped M_unmapped) = true /\ model_obs (gen M_unmapped M_unmapped) = spec_obs M_unmapped.
+Proof. split; [apply topo_self; vm_compute; reflexivity|]. split; [vm_compute; discriminate|]. split; vm_compute; reflexivity. Qed.
 
 (* a model of the grammar, inside F, with inheritance, a reference, collections and a private field: everything holds *)
 Definition M_example : cmodel :=
